@@ -100,3 +100,13 @@ Proof.
     + apply (XRaise true [2; 7] [5] [2] (ELoad 7) RName). apply EvLoadBad. reflexivity.
   - apply FinName.
 Qed.
+
+(* the statement each generated shard file instantiates: all programs of the shard are closed *)
+Theorem C17_shard_sound : forall cases,
+  Verif.Wire.bad_idx case_ok cases = [] ->
+  forall c, In c cases ->
+    (forall o, exec false [] (fst (fst c)) (mod_stmt (snd c)) [] o -> o <> OName) /\
+    (forall f, In f (defs (snd c)) -> forall B o,
+        incl (fparams f) B -> exec true (fdecl f) (snd (fst c)) (fbody f) B o -> o <> OName).
+Proof. exact shard_sound. Qed.
+Print Assumptions C17_shard_sound.
